@@ -51,7 +51,7 @@ CHECKS = {
             BASE + " The fsck reader is written from the format description and shares no code with the repository; it is itself trusted.", "4 C07"),
     "C10": (True, "exploration", "property testing over generated legacy stores (own encoder of the legacy formats) + crash-point enumeration inside the conversion",
             "The harness writes version-2 single-file indexes, unversioned single-file primaries and freelists with its own encoder from generated map histories (superseded lists, pending/applied/lost freelist entries, optionally a cut primary so that "
-            "entries lose their data), converts them through OpenStore under target file sizes from 1 byte to larger than the files, and compares the result with the reference map, with an independent fsck and with a generated suffix. "
+            "entries lose their data), converts them through OpenStore under target file sizes from 1 byte to larger than the files, and compares the result with the reference map, with an independent fsck, with the legacy freelist (no record it names may be live in the converted primary) and with a generated suffix. "
             "The conversion runs under the crash recorder; every captured or torn image must open again and show the same contents.",
             BASE + " The legacy formats are re-implemented from the upgrade code's reader side and the checked-in fixtures; crash enumeration is per generated store.", "4 C10"),
     "C11": (True, "exploration", "property testing with validity predicates over generated histories (kill phase + GC cycles to a fixed point)",
@@ -64,11 +64,11 @@ CHECKS = {
             "Generated workloads (puts, overwrites, removals, flushes, iteration, GC cycles with and without unflushed data and budgets, close/reopen) run with a handler on ~140 named points that snapshots the directory before every file-system step; "
             "consecutive images are diffed into single steps, and every byte prefix of every written region is synthesised as a torn state (a self-check counts steps that have no point in between as hook_gaps, so the enumeration is complete with respect to the code that ran). "
             "Each crash image is restored and opened; the open must succeed, every key must read a value it legitimately had between the last completed Flush/Close and the crash instant (for every instant the same bytes were on disk), never foreign bytes, and a generated suffix "
-            "with GC and reopen must then behave like the map model. Quick draws a few states per workload; thorough enumerates all states of every workload, and a sample of second-level crashes inside the recovery open. A further sub-campaign takes the image while one call is parked between its sub-steps and a Flush of another task has completed (a flush inside a call, which sequential workloads never produce).",
+            "with GC and reopen must then behave like the map model. Quick draws a few states per workload; thorough enumerates all states of every workload, and a sample of second-level crashes inside the recovery open. A further sub-campaign produces images that sequential workloads never reach, in three shapes: one call parked between its sub-steps while a Flush of another task completes; a GC cycle parked inside the cycle, a Flush suspended inside the flush pipeline and the GC cycle completing behind it; a Flush suspended while write calls complete, then the flush completing and the process dying before the next flush.",
             BASE + " Process-crash model (completed system calls are durable); positional writes of <=4 bytes are atomic. Enumeration is exhaustive per generated workload, not over all workloads.", "4 C03"),
     "C08": (True, "exploration", "small-scope exhaustive enumeration + rapid random sequences against a per-operation invariant oracle",
             "index.Index over the in-memory primary, driven under the caller contract the store keeps. Every ordered insertion of up to 5/6 keys of the universe {bucket}x{0,1}^3 followed by every single re-point, removal or re-insertion "
-            "under three flush placements, all insertions of up to 3/4 keys over a 3-symbol alphabet, plus random longer sequences over larger alphabets, key lengths and bit sizes; after EVERY operation each present key must resolve "
+            "under three flush placements, all insertions of up to 3/4 keys over a 3-symbol alphabet, plus random longer sequences over larger alphabets, key lengths and bit sizes (with an operation that pushes the bucket out of the in-memory pools so that it is read from disk) and bulk buckets of 150-450 keys read from disk; after EVERY operation each present key must resolve "
             "to its latest location, absent keys to nothing or to a present key's location, the decoded list must be sorted, prefix-free, one entry per key with each stored prefix a prefix of its owner, and Update/Remove may touch only the addressed entry. "
             "Exhaustive within the stated bound, exploration beyond it.",
             BASE + " The decoded list is read through a verif-tagged accessor (the public iterator only sees flushed buckets).", "4 C08"),
@@ -79,7 +79,7 @@ CHECKS = {
     "C12": (True, "exploration", "schedule exploration of the back-pressure protocol with the real flusher goroutine adopted by the cooperative scheduler; bounded-liveness closure judged by goroutine state",
             "Writers on a store with BurstRate(0) and a pinned flush rate always enter the waiting path; the scheduler interleaves them with the adopted flusher goroutine and explicit Flush tasks at the points measure / decide / register / signal / wait and inside Flush. "
             "After the generated schedule everything runs freely and three more Flush calls complete; a writer that is then still in the channel receive of the wait while the flusher idles in its select and no flush is in progress can never be released - that state, not elapsed time, is the verdict. "
-            "A free-running sub-campaign (rounds of simultaneously released writers) reaches windows without a named point, and a single-writer part (burst rates up to 4000, no Flush issued by the harness) requires each waiting call to be released by the flush it asked for itself. Liveness can only be checked in this bounded form by generated-input search.",
+            "A free-running sub-campaign (rounds of simultaneously released writers) reaches windows without a named point, and a single-writer part (burst rates up to 4000, no Flush issued by the harness) requires each waiting call to be released by the flush it asked for itself (with periodic ticks of 20 us..1 ms meeting the writer's signals); a failed-flush part makes one explicit Flush fail on a stray file while a writer waits and requires the next successful Flush to release it. Liveness can only be checked in this bounded form by generated-input search.",
             BASE + " Goroutine states are read from runtime.Stack. A run that does not reach a verdict state within 8 s is counted as inconclusive, never as a violation.", "4 C12"),
     "C13": (True, "exploration", "property testing with multiset accounting over histories; concurrent exploration of the freelist package with injected delays at named points",
             "Sequential histories: the multiset of locations that stop being current (overwrite, removal, GC relocation; observed through the public index lookup around every call) must equal the multiset of locations that reach GC "
@@ -102,7 +102,7 @@ CHECKS = {
     "C17": (True, "exploration", "schedule exploration with adopted background goroutines + resource census (goroutines by stack, /proc/self/fd, directory hashes)",
             "Five generated situations: Close issued while a collector or the flusher is held by the cooperative scheduler at a drawn point inside a cycle (the store's own goroutines are adopted as tasks at their first named point), Close after free-running activity with 1 ms timers, "
             "failing opens of existing stores (size mismatches, size mismatches together with another bit size so that the open fails inside the index translation, a missing index file during translation, garbage/empty headers, unknown primary type), repeated open/close cycles, and Close with an injected environment fault (stray file or directory that makes the flush or the bucket snapshot inside Close fail: Close may return the error but must release everything). Right after Close (or the failed open) returns there must be no goroutine with a module frame, no descriptor into the store directory, "
-            "and the directory must stay byte-identical across a pause and after all held goroutines were released; second Close nil; reopen works.",
+            "and the directory must stay byte-identical across a pause and after all held goroutines were released; second Close nil; the reopened directory holds exactly what the foreground calls had stored, also after one GC cycle of each kind.",
             BASE + " Goroutines are identified by module frames in runtime.Stack, descriptors by /proc/self/fd (Linux).", "4 C17"),
 }
 
